@@ -31,7 +31,6 @@ for fn, params, spec in [
     ('match_empty', dict(self=CSSMATCH, el=NODE), 'sem_empty(self, el)'),
     ('match_id', dict(self=CSSMATCH, el=NODE, ids=TSeq(STR)), 'sem_ids(self, el, ids)'),
     ('match_classes', dict(self=CSSMATCH, el=NODE, classes=TSeq(STR)), 'sem_classes(self, el, classes)'),
-    ('match_range', dict(self=CSSMATCH, el=NODE, condition=FLAGS), 'sem_range(self, el, condition)'),
     ('match_default', dict(self=CSSMATCH, el=NODE), 'sem_default(self, el)'),
     ('match_indeterminate', dict(self=CSSMATCH, el=NODE), 'sem_indeterminate(self, el)'),
     ('match_dir', dict(self=CSSMATCH, el=NODE, directionality=FLAGS), 'sem_dir(self, el, directionality)'),
@@ -168,3 +167,9 @@ contract('lemma.C02_anb_closed_sound', params=dict(a=INT, b=INT, q=INT), require
          ensures=['implies(a == 0, b == q)', 'implies(a != 0, a * ((q - b) // a) + b == q and (q - b) // a >= 0)'], properties=['C02'])
 contract('lemma.C02_anb_closed_complete', params=dict(a=INT, b=INT, q=INT, k=INT), requires=['k >= 0', 'a * k + b == q'],
          ensures=['anb(a, b, True, q)'], properties=['C02'])
+
+contract(M + 'match_range', params=dict(self=CSSMATCH, el=NODE, condition=FLAGS), returns=BOOL,
+         requires=['el is not None'], assumes=['range_attrs_are_strings(el)'],
+         ensures=['result == sem_range(self, el, condition)'],
+         kf_region='week53_region(el)', kf_id='C18-week53-lenient', opaque_specs=['html_value', 'week53_lenient'],
+         properties=['C18', 'C08', 'C17'])
